@@ -12,6 +12,9 @@ Definition DMP_TYPE_MASK : N := 48.
 Definition DMP_SIZE_MASK : N := 3.
 Definition DMP_TWO_BYTES : N := 1.
 Definition DMP_RANGE_EQUAL : N := 2.
+Definition E131_PREVIEW_DATA_MASK : N := 128.
+Definition E131_STREAM_TERMINATED_MASK : N := 64.
+Definition VECTOR_E131_DATA : N := 2.
 Definition ARTNET_MAX_MERGE_SOURCES : N := 2.
 Definition ARTNET_MERGE_TIMEOUT : N := 10.
 Definition EXPIRY_INTERVAL_US : N := 2500000.
